@@ -6,6 +6,7 @@ NEXT Next
 INVARIANT RefIsHull
 INVARIANT SpansIffVolume
 INVARIANT ExtremeAgree
+INVARIANT SplitSound
 INVARIANT RejectsDamaged
 INVARIANT MinkAlgebra
 INVARIANT TraceConsistent
